@@ -38,31 +38,48 @@ type workerViolation struct {
 }
 
 type workerOut struct {
-	Violations  []workerViolation `json:"violations"`
-	Models      []map[string]any  `json:"models"`
-	Skipped     []string          `json:"skipped_models"`
-	Values      int64             `json:"values"`
-	Pairs       int64             `json:"pair_values"`
-	Parses      int64             `json:"parses"`
-	Points      int64             `json:"insertion_points"`
-	Insertions  int64             `json:"insertions"`
-	SegParses   int64             `json:"segmented_parses"`
-	SegAllCuts  int64             `json:"values_with_every_2_segment_cut"`
-	SegDirected int64             `json:"values_with_boundary_directed_cuts"`
-	Seg3        int64             `json:"values_with_every_3_segment_cut_pair"`
-	SegLimits   string            `json:"segmentation_bounds"`
-	SegSingle   int64             `json:"values_parsed_as_all_1_byte_segments"`
-	SegSpan     int64             `json:"single_value_spanning_3_or_4_segments_parses"`
-	Distinct    int               `json:"distinct_encodings"`
-	Phase1Done  bool              `json:"phase1_complete"`
-	Phase2Done  bool              `json:"phase2_complete"`
-	Phase2Run   bool              `json:"phase2_run"`
-	UnitsTotal  int64             `json:"units_total"`
-	UnitsDone   int64             `json:"units_done"`
-	Samples     []string          `json:"samples"`
-	MaxDev      int               `json:"max_deviations"`
-	MaxDepth    int               `json:"max_struct_depth_for_deviations"`
-	Raw         int64             `json:"raw_violations"`
+	Violations   []workerViolation `json:"violations"`
+	Models       []map[string]any  `json:"models"`
+	Skipped      []string          `json:"skipped_models"`
+	Values       int64             `json:"values"`
+	Pairs        int64             `json:"pair_values"`
+	Parses       int64             `json:"parses"`
+	Points       int64             `json:"insertion_points"`
+	Insertions   int64             `json:"insertions"`
+	SegParses    int64             `json:"segmented_parses"`
+	SegAllCuts   int64             `json:"values_with_every_2_segment_cut"`
+	SegDirected  int64             `json:"values_with_boundary_directed_cuts"`
+	Seg3         int64             `json:"values_with_every_3_segment_cut_pair"`
+	SegLimits    string            `json:"segmentation_bounds"`
+	SegSingle    int64             `json:"values_parsed_as_all_1_byte_segments"`
+	SegSpan      int64             `json:"single_value_spanning_3_or_4_segments_parses"`
+	Distinct     int               `json:"distinct_encodings"`
+	Phase1Done   bool              `json:"phase1_complete"`
+	Phase2Done   bool              `json:"phase2_complete"`
+	Phase2Run    bool              `json:"phase2_run"`
+	UnitsTotal   int64             `json:"units_total"`
+	UnitsDone    int64             `json:"units_done"`
+	Samples      []string          `json:"samples"`
+	MaxDev       int               `json:"max_deviations"`
+	MaxDepth     int               `json:"max_struct_depth_for_deviations"`
+	Raw          int64             `json:"raw_violations"`
+	DirtyEncodes int64             `json:"encodeinto_dirty_memory_encodes"`
+	ReuseEncodes int64             `json:"reused_encoder_encodes"`
+	ReuseParses  int64             `json:"reused_parsing_context_parses"`
+	DifferOK     int64             `json:"reuse_results_that_differ_bytewise_but_round_trip"`
+	NoEncodeInto int64             `json:"values_of_models_without_generated_encodeinto"`
+}
+
+func countEncodeInto(sc *scanResult) map[string]int {
+	n := map[string]int{}
+	for _, m := range sc.Models {
+		k := m.EncodeInto
+		if k == "" {
+			k = "none"
+		}
+		n[k]++
+	}
+	return n
 }
 
 func env(k, def string) string {
@@ -340,7 +357,7 @@ func main() {
 		samples = []string{"(none)"}
 	}
 	cov := report.Coverage{
-		"evaluations":                          wout.Values + wout.Pairs + wout.Insertions + wout.SegParses + int64(len(sc.GenDirs)*genRuns),
+		"evaluations":                          wout.Values + wout.Pairs + wout.Insertions + wout.SegParses + wout.DirtyEncodes + wout.ReuseEncodes + wout.ReuseParses + int64(len(sc.GenDirs)*genRuns),
 		"distinct_nontrivial":                  wout.Distinct,
 		"rule":                                 "distinct (model, encoded byte string) pairs produced by the real encoders for the <=1-deviation values (FNV-64 of the bytes); every one of them was decoded again and had an unknown element inserted at every boundary",
 		"samples":                              samples,
@@ -371,10 +388,19 @@ func main() {
 		"phase2_pairs_len_rt_run":                      wout.Phase2Run,
 		"phase2_pairs_len_rt_complete":                 wout.Phase2Done,
 		"raw_violating_cases":                          wout.Raw,
-		"regeneration":                                 gres,
-		"regeneration_dirs":                            len(sc.GenDirs),
-		"generated_files_without_directive":            orphan,
-		"per_model":                                    wout.Models,
+		"objects_with_an_earlier_use": map[string]any{
+			"rule":                                             "for every <=1-deviation value v whose fresh encoding passed C13.len and C13.rt: (a) the exported XEncoder.EncodeInto into memory of exactly the announced length (nocopy models: exactly the planned segments) pre-filled with 0xFF and with 0x5A; (b) ONE encoder object: Init(p)[; Encode(p)]; Init(v); Encode(v) for p in {all-minimal, all-typical, all-maximal value of the model, v itself}, with and without the intermediate Encode, and Init(v)[; Encode(v)]; Init(b); Encode(b) for the three base values b; (c) ONE parsing context: Init(); Parse(enc(p)); Init(); Parse(enc(v)), same ordered pairs. Verdict: announced length, well-formed, decodes to the value (bytes equal to the fresh objects' output are accepted without decoding)",
+			"encodeinto_dirty_memory_encodes":                  wout.DirtyEncodes,
+			"reused_encoder_encodes":                           wout.ReuseEncodes,
+			"reused_parsing_context_parses":                    wout.ReuseParses,
+			"results_that_differ_bytewise_but_round_trip":      wout.DifferOK,
+			"values_of_models_without_generated_encodeinto":    wout.NoEncodeInto,
+			"models_with_encodeinto_into_a_byte_slice_or_wire": countEncodeInto(sc),
+		},
+		"regeneration":                      gres,
+		"regeneration_dirs":                 len(sc.GenDirs),
+		"generated_files_without_directive": orphan,
+		"per_model":                         wout.Models,
 	}
 	assumptions := []string{
 		"values are bounded: base in {all-minimal, all-typical, all-maximal} plus <=1 (quick) / <=2 (thorough) single-field deviations drawn from fixed boundary domains; deviations inside nested models up to the stated depth",
@@ -383,6 +409,7 @@ func main() {
 		"signature slots are filled by the harness with exactly estLen bytes; models nested in another model cannot receive encoder inputs (estLen, needDigest), so nested signed packets are encoded unsigned",
 		"values compare equal up to what the wire cannot express: nil vs empty sequence/map, Wire segmentation, nil vs empty component value",
 		"pairs of deviations (thorough) are checked for C13.len and C13.rt only; insertion clauses use the <=1-deviation values",
+		"object re-use is bounded to histories of two values on one encoder / parsing context object, one of which is a base value of the model or the value itself; dirty memory is two fill patterns (0xFF, 0x5A)",
 	}
 	if replayKey != "" {
 		found := false
